@@ -66,7 +66,8 @@ def uniquify(t, fields=True):
             if k == "date":
                 return ("lit", "date", "%d-%02d-%02d" % (2030 + i // 300, 1 + (i // 25) % 12, 1 + i % 25))
             if k == "datetime":
-                return ("lit", "datetime", "%d-%02d-%02dT10:00:00Z" % (2050 + i // 300, 1 + (i // 25) % 12, 1 + i % 25))
+                tail = ["T10:00:00Z", "T10:00:00.5Z", "T10:00:00.123456-05:30", "T23:59:59+01:00", "T10:00Z"][i % 5]
+                return ("lit", "datetime", "%d-%02d-%02d%s" % (2050 + i // 300, 1 + (i // 25) % 12, 1 + i % 25, tail))
             if k == "duration":
                 return ("lit", "duration", "P%dD" % (7000 + i))
             n[0] -= 1
@@ -80,6 +81,11 @@ def uniquify(t, fields=True):
         return out
 
     return go(t)
+
+
+def norm_dt(text):
+    """Date-time text with the separator and letter case normalised (T/t/blank are the same separator)."""
+    return text.upper().replace("T", " ")
 
 
 def marker(x):
@@ -96,7 +102,7 @@ def marker(x):
         if k == "date":
             return "s:" + v
         if k == "datetime":
-            return "s:" + v[:10]
+            return "t:" + norm_dt(v)
         if k == "duration":
             return "s:" + re.sub(r"\D", "", v)
     return None
@@ -121,6 +127,8 @@ def s_leaves(e, known, dialect):
             s = s.replace("\\", "")
             for m in known:
                 if m.startswith("s:") and m[2:] in s:
+                    out.add(m)
+                elif m.startswith("t:") and m[2:] in norm_dt(s):
                     out.add(m)
     return frozenset(out)
 
@@ -209,6 +217,7 @@ def structure_check(t, tree, dialect):
 
 
 REPEATING = {"floor", "ceiling", "hassubset"}
+_REUSED = {}
 
 
 def leaves_check(t, sql, tree, dialect, alias):
@@ -237,6 +246,8 @@ def leaves_check(t, sql, tree, dialect, alias):
             s = v.replace("\\", "")
             for m in known:
                 if m.startswith("s:") and m[2:] in s:
+                    counts[m] += 1
+                elif m.startswith("t:") and m[2:] in norm_dt(s):
                     counts[m] += 1
     for m, c in counts.items():
         if c == 0:
@@ -310,6 +321,13 @@ def check_case(case, use_fences=True):
                 continue
             try:
                 sql = cls(alias).visit(a) if alias else cls().visit(a)
+                key = (dname, alias)
+                if key not in _REUSED:
+                    _REUSED[key] = cls(alias) if alias else cls()
+                sql_again = _REUSED[key].visit(a)
+                if sql_again != sql:
+                    _REUSED.pop(key, None)
+                    return ("%s:reused-visitor-differs" % dname, "%r: fresh -> %s ; reused instance -> %s" % (text, sql, sql_again))
             except exceptions.ODataException as e:
                 return ("%s:refused:%s" % (dname, type(e).__name__), "%r -> %s: %s" % (text, type(e).__name__, e))
             except Exception as e:
@@ -422,6 +440,9 @@ def exhaustive_terms():
     yield ("cmp", "gt", ("bin", "add", ("id", "t1", ()), ("lit", "duration", "P1DT2H")), ("call", "now", (), ()))
     yield ("cmp", "lt", ("bin", "sub", ("id", "t1", ()), ("lit", "duration", "-P1Y2M3DT4H5M6S")), ("lit", "datetime", "2020-01-01T00:00:00Z"))
     yield ("cmp", "eq", ("id", "g", ()), ("lit", "guid", "123e4567-e89b-12d3-a456-426614174000"))
+    for z in ("PT0S", "P0D", "-P0DT0H", "P0DT5H", "PT0.5S"):
+        yield ("cmp", "ge", ("bin", "add", ("id", "t1", ()), ("lit", "duration", z)), ("id", "t1", ()))
+        yield ("cmp", "eq", ("id", "dur", ()), ("lit", "duration", z))
 
 
 ATHENA_ONLY = [
